@@ -27,7 +27,7 @@ sha384 = Function('sha384', Bytes, Bytes)               # 48 bytes
 hkdf384 = Function('hkdf_sha384', Bytes, Bytes, Bytes, I, Bytes)   # (salt, ikm, info, len)
 ks_xchacha = Function('xchacha20_keystream', Bytes, Bytes, I, Bytes)   # (key, nonce, len)
 ks_aesctr = Function('aes256ctr_keystream', Bytes, Bytes, I, Bytes)    # (key, iv, len)
-xor = Function('xor', Bytes, Bytes, Bytes)
+xor = Function('bytes_xor', Bytes, Bytes, Bytes)
 aead_enc = Function('xchacha20poly1305_encrypt', Bytes, Bytes, Bytes, Bytes, Bytes)     # (key, nonce, aad, msg) -> ct||tag
 aead_dec_ok = Function('xchacha20poly1305_decrypt_ok', Bytes, Bytes, Bytes, Bytes, BoolSort())
 aead_dec = Function('xchacha20poly1305_decrypt', Bytes, Bytes, Bytes, Bytes, Bytes)
@@ -68,6 +68,48 @@ def cat(*xs):
     if len(xs) == 1: return xs[0]
     return Concat(*xs)
 
+
+
+def seq_len(st, v):
+    """length of a byte-sequence term, normalised with the facts the executor knows syntactically"""
+    if is_app(v):
+        k = v.decl().kind()
+        if k == Z3_OP_SEQ_CONCAT:
+            r = IntVal(0)
+            for c in v.children(): r = r + seq_len(st, c)
+            return simplify(r)
+        if k == Z3_OP_SEQ_UNIT: return IntVal(1)
+        if k == Z3_OP_SEQ_EMPTY: return IntVal(0)
+        if k == Z3_OP_UNINTERPRETED and v.num_args() > 0:
+            n = v.decl().name()
+            if n == 'bytes_xor': return seq_len(st, v.arg(0))
+            ol = out_len(v)
+            if ol is not None: return simplify(ol)
+    if is_string_value(v): return IntVal(len(v.as_string()))
+    kl = st.known_len.get(v.get_id()) if st is not None else None
+    if kl is not None: return kl[1]
+    return Length(v)
+
+
+def _is_zero(e):
+    e = simplify(e)
+    return is_int_value(e) and e.as_long() == 0
+
+
+def smart_extract(st, v, lo, n):
+    """seq.extract resolved structurally when it falls on piece boundaries of a concatenation"""
+    ps = _flatten_concat(simplify(v)) if is_seq(v) else [v]
+    lens = [seq_len(st, p) for p in ps]
+    pre = [IntVal(0)]
+    for l in lens: pre.append(simplify(pre[-1] + l))
+    for i in range(len(ps) + 1):
+        if not _is_zero(lo - pre[i]): continue
+        for j in range(i, len(ps) + 1):
+            if _is_zero(n - (pre[j] - pre[i])):
+                return cat(*ps[i:j]) if j > i else Empty(Bytes)
+    return simplify(Extract(v, lo, n))
+
+HOOKS['extract'] = smart_extract; HOOKS['len'] = seq_len
 
 # ----------------------------------------------------------------------------- helpers on executor values
 def deref(st, v):
@@ -282,7 +324,7 @@ def _range(r, n):
 @contract(r'^<Vec<u8> as (std::ops::)?Index(Mut)?<', r'^<\[u8; \d+\] as (std::ops::)?Index(Mut)?<', r'^<\[u8\] as (std::ops::)?Index(Mut)?<',
           r'^<GenericArray<u8, .*> as (std::ops::)?Index(Mut)?<')
 def c_index_range(ex, st, callee, a):
-    v = as_bytes(st, a[0]); r = a[1]; n = Length(v)
+    v = as_bytes(st, a[0]); r = a[1]; n = seq_len(st, v)
     if is_expr(r):   # single element index
         okc = And(r >= 0, r < n)
         return [(Not(okc), Panic('index out of bounds')), (okc, BV2Int(v[r]))]
@@ -301,22 +343,22 @@ def c_index_range(ex, st, callee, a):
             idx = max(i for i, f in enumerate(cur[3]) if (is_expr(f) and is_seq(f)) or (isinstance(f, tuple) and f[0] == 'adt'))
             path = path + (('f', idx),); cur = cur[3][idx]
         return [(Not(okc), Panic(what)), (okc, ('ref', src[1], path + (('slice', lo, hi - lo),)))]
-    return [(Not(okc), Panic(what)), (okc, simplify(Extract(v, lo, hi - lo)))]
+    return [(Not(okc), Panic(what)), (okc, smart_extract(st, v, lo, simplify(hi - lo)))]
 
 
 @contract(r'^core::slice::<impl \[u8\]>::split_at$')
 def c_split_at(ex, st, callee, a):
-    v = as_bytes(st, a[0]); k = a[1]; n = Length(v)
+    v = as_bytes(st, a[0]); k = a[1]; n = seq_len(st, v)
     return [(k > n, Panic('split_at: mid > len in ' + st.stack[-1]['fn'].name[-60:])),
-            (k <= n, tup(simplify(Extract(v, IntVal(0), k)), simplify(Extract(v, k, n - k))))]
+            (k <= n, tup(smart_extract(st, v, IntVal(0), k), smart_extract(st, v, k, simplify(n - k))))]
 
 
 @contract(r'^Vec::<u8>::len$', r'^core::slice::<impl \[u8\]>::len$', r'^std::string::String::len$', r'^core::str::<impl str>::len$')
-def c_len(ex, st, callee, a): return [(None, Length(as_bytes(st, a[0])))]
+def c_len(ex, st, callee, a): return [(None, seq_len(st, as_bytes(st, a[0])))]
 
 
 @contract(r'^core::slice::<impl \[u8\]>::is_empty$', r'^Vec::<u8>::is_empty$')
-def c_is_empty(ex, st, callee, a): return [(None, Length(as_bytes(st, a[0])) == 0)]
+def c_is_empty(ex, st, callee, a): return [(None, simplify(seq_len(st, as_bytes(st, a[0])) == 0))]
 
 
 @contract(r'^core::str::<impl str>::is_empty$', r'^std::string::String::is_empty$')
@@ -327,7 +369,8 @@ def c_str_is_empty(ex, st, callee, a): return [(None, as_str(st, a[0]) == String
 def c_copy_from_slice(ex, st, callee, a):
     dst = as_bytes(st, a[0]); src = as_bytes(st, a[1])
     upd(st, a[0], src)
-    return [(Length(dst) != Length(src), Panic('copy_from_slice: length mismatch in ' + st.stack[-1]['fn'].name[-60:])), (Length(dst) == Length(src), UNIT)]
+    ld, ls = seq_len(st, dst), seq_len(st, src)
+    return [(simplify(ld != ls), Panic('copy_from_slice: length mismatch in ' + st.stack[-1]['fn'].name[-60:])), (simplify(ld == ls), UNIT)]
 
 
 @contract(r'^std::slice::<impl \[u8\]>::to_vec$', r'^<Vec<u8> as From<&\[u8\]>>::from$', r'^<Vec<u8> as From<&\[u8; \d+\]>>::from$',
@@ -340,7 +383,7 @@ def c_to_bytes(ex, st, callee, a): return [(None, as_bytes(st, a[0]))]
 def c_from_elem(ex, st, callee, a):
     n = a[1]
     if is_int_value(n): return [(None, zeros(n.as_long()))]
-    z = Const('zeros%d' % next(fresh), Bytes); st.pc.append(Length(z) == n); st.facts.append(Length(z) == n)
+    z = Const('zeros%d' % next(fresh), Bytes); st.pc.append(Length(z) == n); st.known_len[z.get_id()] = (z, simplify(n))
     return [(None, z)]
 
 
@@ -864,7 +907,7 @@ def out_len(t):
     if n == 'blake2b': return t.arg(0)
     if n == 'hkdf_sha384': return t.arg(3)
     if n in ('xchacha20_keystream', 'aes256ctr_keystream'): return t.arg(2)
-    if n == 'xor': return Length(t.arg(0))
+    if n == 'bytes_xor': return Length(t.arg(0))
     if n == 'xchacha20poly1305_encrypt': return Length(t.arg(3)) + 16
     return None
 
@@ -901,7 +944,7 @@ def instantiate(assertions, honest=None, secret_keys=(), rounds=2):
         for t in apps.get('b64dec_ok', []):
             add(Implies(t, b64(b64dec(t.arg(0))) == t.arg(0)))
         # xor with a keystream: involution and cancellation
-        xs = apps.get('xor', [])
+        xs = apps.get('bytes_xor', [])
         for x in xs:
             add(Length(x.arg(1)) == Length(x.arg(0)) if False else BoolVal(True))
         for x, y in itertools.permutations(xs, 2):
